@@ -69,6 +69,9 @@ types = [
         field("audit", ref("Inner"), optional=True),
         field("deep", ref("Outer"), optional=True),
     ]),
+    # a record that includes a record living in ANOTHER namespace (hence another Go package): the embedded
+    # partial-update helper structs have to be qualified and imported
+    record("Doc", [field("title", prim("string")), field("pages", prim("int32"), optional=True)], includes=["Inner"], ns="fam.docs"),
     # a record whose only annotated field is a REQUIRED create-only one (no read-only field on its resource)
     record("CoOnly", [field("sku", prim("string")), field("note", prim("string"), optional=True), field("inner", ref("Inner"), optional=True)]),
     record("KeyPart", [field("a", prim("string")), field("b", prim("int64"))]),
@@ -144,6 +147,8 @@ resources = [
     resource("fam.annotatedre", [("annotatedRe", ("id", prim("string")))], ref("Annotated"),
         [m("get", True), m("create", False, True), m("batch_create", False, True), m("update", True), m("partial_update", True, True), m("batch_partial_update", False)],
         ro=["id", "inner/b", "items/*/b", "audit", "deep/audit/b", "deep/tags/*/b"], co=["created", "attrs/*/a", "deep/attrs/*/b"]),
+    resource("fam.docs", [("docs", ("id", prim("int64")))], ref("Doc", "fam.docs"),
+        [m("get", True), m("create", False), m("update", True), m("partial_update", True), m("batch_partial_update", False), m("batch_get", False)]),
     # one kind of annotation only: the generator picks the exclusion set per method from which lists are non-empty
     resource("fam.coonly", [("coOnly", ("id", prim("int64")))], ref("CoOnly"),
         [m("get", True), m("create", False), m("batch_create", False), m("update", True), m("batch_update", False), m("partial_update", True), m("batch_partial_update", False)],
